@@ -6,6 +6,7 @@ patch=$(realpath "$1"); budget=$2; shift 2
 V="$(dirname "$(readlink -f "$0")")/.."
 wt=$(mktemp -d /tmp/mut-XXXXXX); rmdir $wt
 git -C /repo worktree add -q --detach $wt HEAD || exit 3
+trap 'git -C /repo worktree remove --force $wt 2>/dev/null' EXIT PIPE TERM INT
 if ! git -C $wt apply "$patch"; then echo "PATCH-DOES-NOT-APPLY"; git -C /repo worktree remove --force $wt; exit 3; fi
 for P in "$@"; do
   out=$(cd "$V" && VERIF_REPO=$wt VERIF_EVIDENCE_DIR=$wt/.evidence VERIF_REPLAY_DIR=$wt/.replays timeout 900 ./check $P --budget $budget 2>&1)
